@@ -120,6 +120,16 @@ def deliver(wb, f, d, ft, tmpdir, stem="data"):
     """-> (input object for convert(), kwargs, closer)"""
     if f == "dict":
         return render.to_dict(wb), {}, None
+    if f == "dict_rows":
+        # rows only - for every sheet in which each header column has at least one cell (a column that is empty in every row
+        # exists only through the header row, and its presence matters, e.g. to the missing-translation notice)
+        d0 = render.to_dict(wb)
+        for k in [k for k in d0 if k.endswith("_header")]:
+            rows = d0.get(k[: -len("_header")]) or []
+            cols = [h for hd in d0[k] for h in hd]
+            if rows and all(any(h in r for r in rows) for h in cols):
+                del d0[k]
+        return d0, {}, None
     data = {"md": render.to_md, "csv": render.to_csv, "xls": render.to_xls, "xlsx": render.to_xlsx, "xlsm": render.to_xlsx}[f](wb)
     raw = data.encode("utf-8") if isinstance(data, str) else data
     kw = {"file_type": "." + f} if ft else {}
@@ -142,3 +152,34 @@ def deliver(wb, f, d, ft, tmpdir, stem="data"):
 
 def digest(x):
     return hashlib.sha1(repr(x).encode("utf-8")).hexdigest()[:16]
+
+
+def canon_itemsets(text):
+    """itemsets CSV with its columns sorted by header name (content without column order)"""
+    import csv
+    import io
+
+    if not text:
+        return text
+    rows = list(csv.reader(io.StringIO(text)))
+    if not rows:
+        return text
+    order = sorted(range(len(rows[0])), key=lambda i: rows[0][i])
+    return [[r[i] if i < len(r) else "" for i in order] for r in rows]
+
+
+def canon_xform(xform):
+    """XForm text with the children of every secondary-instance <item> sorted by tag (content without choice-column order)"""
+    import re
+
+    if not xform:
+        return xform
+
+    def fix(m):
+        kids = re.findall(r"<([A-Za-z_][\w.\-:]*)(?:\s[^>]*)?(?:/>|>.*?</\1>)", m.group(2), re.S)
+        parts = [x.group(0) for x in re.finditer(r"<([A-Za-z_][\w.\-:]*)(?:\s[^>]*)?(?:/>|>.*?</\1>)", m.group(2), re.S)]
+        if len(parts) != len(kids):
+            return m.group(0)
+        return m.group(1) + "".join(sorted(parts)) + m.group(3)
+
+    return re.sub(r"(<item>)(.*?)(</item>)", fix, xform, flags=re.S)
